@@ -2773,6 +2773,147 @@ def gen_tserver_case(rng):
 import lbry.blob_exchange.serialization as _ser  # noqa: E402
 
 
+def run_wfault_case(run, model, case):
+    """case: {'kind':'wfault','T','blob':hex,'with_length':bool,'errno':n,'point':'replace'|'open','chunks':[hex..],
+    'retry_chunks':[hex..],'reuse':bool}: a REAL BlobManager (shared blob objects), an honest scripted peer. The first
+    request_blob receives the complete, correct header||body, but the client's own disk write fails ONCE (one-shot fault in
+    BlobFile._write_blob: os.replace / open of the .tmp file raise OSError). The fault is over; the same hash is asked again
+    through the SAME BlobManager from the honest peer (up to 2 attempts): the property's clause 'a client requesting a blob
+    from a server that holds it ends with the verified, byte-identical blob' - a failed writer must not affect later ones.
+    Monitor only (the model has no disk faults)."""
+    import builtins
+    T = case['T']
+    blob_bytes = bytes.fromhex(case['blob'])
+    h = sha(blob_bytes)
+    n = len(blob_bytes)
+    loop = VLoop()
+    asyncio.set_event_loop(loop)
+    d = tempfile.mkdtemp(prefix='c10w')
+    trs = {}
+
+    def connect(p, host, port):
+        t = FakeTransport(loop, p, peer=(host, port))
+        trs[port] = t
+        return t
+    loop.fake_connect = connect
+    bad = None
+    real_replace, real_open = os.replace, builtins.open
+    state = {'failed': 0}
+    path = os.path.join(d, h)
+
+    def failing_replace(src, dst, *a, **k):
+        if str(dst) == path and not state['failed']:
+            state['failed'] += 1
+            raise OSError(case['errno'], os.strerror(case['errno']))
+        return real_replace(src, dst, *a, **k)
+
+    def failing_open(f, mode='r', *a, **k):
+        if isinstance(f, str) and f.startswith(path) and 'w' in mode and not state['failed']:
+            state['failed'] += 1
+            raise OSError(case['errno'], os.strerror(case['errno']))
+        return real_open(f, mode, *a, **k)
+
+    def outcome(t):
+        if not t.done():
+            return 'pending'
+        if t.cancelled():
+            return 'cancelled'
+        if t.exception() is not None:
+            return 'exc:' + type(t.exception()).__name__
+        got, p = t.result()
+        return ['ok' if p is not None else 'closed', got]
+    try:
+        conf = Config(data_dir=d, wallet_dir=d, download_dir=d, config=os.path.join(d, 'settings.yml'))
+        bm = BlobManager(loop, d, StubStorage(), conf)
+        blob = bm.get_blob(h, n if case['with_length'] else None)
+        if case['point'] == 'replace':
+            os.replace = failing_replace
+        else:
+            builtins.open = failing_open
+        try:
+            t1 = loop.create_task(request_blob(loop, blob, '127.0.0.1', 4444, CONNECT_T, T))
+            loop.drain()
+            for c in case['chunks']:
+                if 4444 in trs:
+                    trs[4444].deliver(bytes.fromhex(c))
+                loop.drain()
+            loop.advance(2 * T + 1)
+        finally:
+            os.replace, builtins.open = real_replace, real_open
+        o1 = outcome(t1)
+        if not t1.done():
+            t1.cancel()          # what the downloader's own timeout / the caller does with a request that hangs
+            loop.drain()
+        leftovers = sorted(x for x in os.listdir(d) if x.startswith(h))
+        if state['failed'] != 1:
+            bad = 'harness: the disk fault was not injected (%r)' % (state,)
+        elif blob.get_is_verified() and not (os.path.isfile(path) and real_open(path, 'rb').read() == blob_bytes):
+            bad = 'the disk write failed but the blob is marked verified (on disk: %r)' % (leftovers,)
+        elif leftovers and not blob.get_is_verified():
+            bad = 'the failed disk write left files behind: %r' % (leftovers,)
+        retries = []
+        if not bad and not blob.get_is_verified():
+            proto = None
+            for k in (1, 2):
+                port = 4444 + k
+                b2 = bm.get_blob(h, n if case['with_length'] else None)
+                t2 = loop.create_task(request_blob(loop, b2, '127.0.0.1', port, CONNECT_T, T))
+                loop.drain()
+                for c in case['retry_chunks']:
+                    if port in trs and not trs[port].is_closing():
+                        trs[port].deliver(bytes.fromhex(c))
+                    loop.drain()
+                loop.advance(2 * T + 1)
+                retries.append(outcome(t2))
+                if not t2.done():
+                    t2.cancel()
+                    loop.drain()
+                if b2.get_is_verified():
+                    break
+            b2 = bm.get_blob(h, n if case['with_length'] else None)
+            on_disk = real_open(path, 'rb').read() if os.path.isfile(path) else None
+            if not (b2.get_is_verified() and on_disk == blob_bytes and b2.length == n):
+                bad = ('after ONE failed disk write (errno %d at %s) of a complete hash-checked blob, the same hash asked again '
+                       'through the same BlobManager from an honest peer never completes: first request %r, retries %r, '
+                       'verified=%s is_writeable=%s writing=%s length=%r on disk %s' % (
+                           case['errno'], case['point'], o1, retries, b2.get_is_verified(), b2.is_writeable(),
+                           b2.writing.is_set(), b2.length, None if on_disk is None else len(on_disk)))
+            elif [x for x in os.listdir(d) if x.startswith(h) and x != h]:
+                bad = 'temporary files left next to the verified blob: %r' % (sorted(os.listdir(d)),)
+        run.count('wfault:%s' % case['point'])
+        run.count('wfault-first:%s' % (o1 if isinstance(o1, str) else o1[0]))
+        for b in list(bm.blobs.values()):
+            b.close()
+    finally:
+        os.replace, builtins.open = real_replace, real_open
+        loop.shutdown()
+        asyncio.set_event_loop(None)
+        shutil.rmtree(d, ignore_errors=True)
+    run.case(case, nontrivial=True, validated=False)
+    if bad:
+        run.violation(case, bad, signature={'kind': 'wfault', 'point': case['point'], 'errno': case['errno'],
+                                            'with_length': case['with_length'], 'size': n})
+
+
+def gen_wfault_case(rng, point=None, size=None, T=3):
+    blob = make_blob(rng, rng.choice(BLOB_KINDS), size or rng.choice([1, 24, 100, 1000, 4096, 100000]))
+    h = sha(blob)
+    hdr = honest_header(h, len(blob))
+    stream = hdr + blob
+
+    def chunks():
+        mode = rng.choice(['one', 'split', 'three'])
+        if mode == 'one' or len(stream) < 4:
+            return [stream.hex()]
+        if mode == 'split':
+            return [hdr.hex(), blob.hex()]
+        a, b = sorted(rng.sample(range(1, len(stream)), 2))
+        return [stream[:a].hex(), stream[a:b].hex(), stream[b:].hex()]
+    return {'kind': 'wfault', 'T': T, 'blob': blob.hex(), 'with_length': rng.random() < 0.5,
+            'errno': rng.choice([28, 5, 13, 122]), 'point': point or rng.choice(['replace', 'open']),
+            'chunks': chunks(), 'retry_chunks': chunks()}
+
+
 class _JsonCounter:
     def __init__(self, real):
         self.real, self.calls, self.bytes = real, 0, 0
@@ -2816,6 +2957,8 @@ def dispatch(run, model, case):
         run_stream_case(run, model, case)
     elif k == 'memonly':
         run_memonly_case(run, model, case)
+    elif k == 'wfault':
+        run_wfault_case(run, model, case)
     else:
         raise ValueError('unknown case kind %r' % (k,))
 
@@ -2919,6 +3062,9 @@ def main(run):
         'stream: a real stream (StreamDescriptor.create_stream) served by scripted peers to the real StreamDownloader '
         '(load_descriptor / read_blob): a peer lying once about a content blob or the sd blob, then an honest peer; re-reads. '
         'memonly: save_blobs=False histories download -> consume -> request again (client) and serve -> asked again (server). '
+        'wfault: honest scripted peer, real BlobManager; the client\'s own disk write of the complete hash-checked blob fails '
+        'ONCE (os.replace / open of the .tmp file, ENOSPC/EIO/EACCES/EDQUOT), then the same hash is asked again through the '
+        'same BlobManager and must end verified and byte-identical (monitor only). '
         'downloader groups: a warm-up download, then two different blobs concurrently through one BlobDownloader. '
         'every client / server / e2e / downloader case is assigned (by a hash of the case) a peer address out of 127.0.0.1, ::1, '
         '10.11.12.13, fe80::... and a running or stopped ConnectionManager (bandwidth tracking). '
@@ -3003,6 +3149,13 @@ def main(run):
             for size in (1, 5000, 70000):
                 dispatch(run, model, {'kind': 'memonly', 'seed': rng.randrange(1 << 30), 'size': size, 'side': side,
                                       'rounds': rng.choice([2, 3]), 'with_length': rng.random() < 0.5})
+    # --- one-shot disk-write fault on the client, then the same hash again through the same BlobManager
+    for rep in range(mult):
+        for point in ('replace', 'open'):
+            for size in (1, 1000, 100000):
+                dispatch(run, model, gen_wfault_case(rng, point=point, size=size))
+        for _ in range(6):
+            dispatch(run, model, gen_wfault_case(rng))
     # --- two clients downloading the same blob from one server, one of them goes away mid-transfer
     for rep in range(3 * mult):
         for a_exit in ('eof', 'reset', 'finish', 'stall'):
